@@ -52,16 +52,23 @@ def cache_dir():
         _cache_key = _sha(files)
     d = os.path.join(BUILD, _cache_key)
     os.makedirs(d, exist_ok=True)
+    try:
+        os.utime(d, None)
+    except OSError:
+        pass
     return d
 
 
-def prune_cache(keep=4):
+def prune_cache(keep=3, min_age_s=5400):
+    """remove build directories of other source states; never one that was used in the last 90 minutes"""
     if not os.path.isdir(BUILD):
         return
     ds = [os.path.join(BUILD, x) for x in os.listdir(BUILD) if re.fullmatch(r'[0-9a-f]{16}', x)]
     ds.sort(key=os.path.getmtime, reverse=True)
+    now = time.time()
     for d in ds[keep:]:
-        shutil.rmtree(d, ignore_errors=True)
+        if now - os.path.getmtime(d) > min_age_s:
+            shutil.rmtree(d, ignore_errors=True)
 
 
 def _limits():
